@@ -1,6 +1,6 @@
 #!/bin/bash
 # usage: seed_process.sh Cxx   -- confirm every /tmp/seeded/Cxx/<k>, try the confirmed ones against ./check Cxx, record them
-ID=$1; D=/tmp/seeded/$ID
+ID=$1; BASE=${2:-/tmp/seeded}; TAG=${3:-}; D=$BASE/$ID
 dirs=$(ls -d $D/[0-9]* 2>/dev/null)
 todo=""; for d in $dirs; do [ -s $d/confirm.json ] || todo="$todo $d"; done
 [ -n "$todo" ] && python3 /verif/tools/confirm_seeded.py $todo
@@ -11,5 +11,5 @@ for d in $dirs; do
     /verif/tools/try_seeded.sh $d/patch.diff $ID quick > $d/try.log 2>&1
     r=$(grep -o 'replay=[^ ]*' $d/try.log | head -1 | cut -d= -f2); [ -n "$r" ] && [ -f "$r" ] && cp $r $d/replay.json
   fi
-  python3 /verif/tools/record_seeded.py $d $ID $ID-$k
+  python3 /verif/tools/record_seeded.py $d $ID $ID-$TAG$k
 done
